@@ -39,6 +39,8 @@ CHECKS = {
              text="For 12 generated programs (repeated names, nested namespaces, scans incl. nested and with namespaces around/inside, vmap/modular_vmap, scan inside vmap, multi-value tag_state, leaf-mode save) state(f) returns f's result and a dictionary with exactly the reference names/nesting and leaf-wise equal values for all inputs, also under jit and seed.", ref="3 C19"),
  "C13": dict(technique="Jaxpr-to-SMT encoding of every wrapper's logpdf and seeded sampler vs the documented TFP object (z3 equality queries), hand-written closed forms, finite-support normalisation sums in log-domain mode",
              text="For all 24 exported distributions and user-wrapped tfp_distribution/distribution instances: logpdf equals the log density of the documented TFP object built with the documented parameter NAMES (argument wiring: probs vs logits, rate vs scale, alpha vs beta; swapped-parameter twins must be refuted), with the documented shape/dtype; closed forms for normal, exponential, uniform, flip, gamma, categorical, geometric (counts failures), binomial; sum of exp(logpmf) == 1 in the solver for flip, bernoulli, categorical K<=3, binomial n<=3; the seeded sampler (scalar, sample_shape, modular_vmap) equals the documented TFP sampler on the site's own sub-key for the 15 families without a rejection loop, shape/dtype/key provenance for the other 9.", ref="3 C13"),
+ "C15": dict(technique="Jaxpr-to-SMT encoding of expectation(f).jvp_estimate/grad_estimate/estimate vs jax.jvp/jax.grad/f (z3 equality queries with shared uninterpreted transcendentals)",
+             text="For 22 deterministic programs (arithmetic, transcendental, indexing/slicing/gather, reductions, dot/matmul/transpose, integer/boolean intermediates, dtype conversions, where, cond with either branch; scalar, array and pytree arguments) the primal, tangent and gradient terms of the ADEV transformation are proved equal to JAX's for ALL inputs and tangents, with equal shapes/dtypes; tracing must succeed for every argument shape (estimate included).", ref="3 C15"),
 }
 NA = {}
 
